@@ -176,7 +176,19 @@ func replay(in input) map[string]any {
 			}
 			w.nlaunch++
 		case "dotimes":
-			if w.nlaunch%2 == 0 {
+			if n := num(st.Arg); n <= 0 {
+				// nothing to start: must change nothing and must not panic (observed like an Add)
+				alt := w.nlaunch%2 == 0
+				addOp = rt.Start(k, func() any {
+					if alt {
+						w.wg.DoTimes(bg, n, gated)
+					} else {
+						gated.StartGroup(bg, w.wg, n)
+					}
+					return "ok"
+				})
+				w.nlaunch++
+			} else if w.nlaunch%2 == 0 {
 				w.wg.DoTimes(bg, num(st.Arg), gated)
 			} else {
 				gated.StartGroup(bg, w.wg, num(st.Arg))
@@ -220,6 +232,9 @@ func replay(in input) map[string]any {
 			}
 			got := addOp.Pan != nil
 			if got != st.Panic {
+				if st.Op == "dotimes" {
+					return fail(in, k, "waitgroup/dotimes-nonpositive/panic", fmt.Sprintf("DoTimes/StartGroup(%d) panicked: %v", num(st.Arg), addOp.Pan), nil)
+				}
 				return fail(in, k, "waitgroup/add-panic", fmt.Sprintf("Add panic=%v, spec says %v", got, st.Panic), nil)
 			}
 		}
